@@ -597,7 +597,7 @@ func (env *specEnv) call(e *ast.CallExpr) Val {
 					if len(ls) != 1 {
 						return env.fail(e, "quantified variable of composite type")
 					}
-					bn := sym(fmt.Sprintf("q!%s!%d", n.Name, env.qdepth))
+					bn := sym(fmt.Sprintf("qbv$%s!%d", n.Name, env.qdepth))
 					binders = append(binders, fmt.Sprintf("(%s %s)", bn, ls[0].Sort))
 					if old, ok := env.vars[n.Name]; ok {
 						o := old
@@ -689,6 +689,28 @@ func (env *specEnv) call(e *ast.CallExpr) Val {
 		if recv != nil {
 			rv := env.eval(recv)
 			rtyp := env.typeOf(recv)
+			// method promoted through embedded fields: walk to the embedded receiver
+			if sel, ok := env.info.Selections[fun.(*ast.SelectorExpr)]; ok && len(sel.Index()) > 1 {
+				path := sel.Index()[:len(sel.Index())-1]
+				for _, fi := range path {
+					if pt, isPtr := rtyp.Underlying().(*types.Pointer); isPtr {
+						st := pt.Elem().Underlying().(*types.Struct)
+						ft := st.Field(fi).Type()
+						fa := x.fieldAddr(rv, pt.Elem(), fi)
+						if _, fIsPtr := ft.Underlying().(*types.Pointer); fIsPtr || fa.fp != nil {
+							rv = x.loadAt(env.h(), fa, ft)
+							rtyp = ft
+						} else {
+							rv = fa // address of the embedded struct value
+							rtyp = types.NewPointer(ft)
+						}
+					} else if st, isStruct := rtyp.Underlying().(*types.Struct); isStruct {
+						lo, hi := fieldRange(st, fi)
+						rv = Val{ts: rv.ts[lo:hi]}
+						rtyp = st.Field(fi).Type()
+					}
+				}
+			}
 			// auto address-of / deref for receivers
 			msig := fobj.Type().(*types.Signature)
 			if mr := msig.Recv(); mr != nil {
